@@ -1115,8 +1115,14 @@ class Interp(object):
                 return And(*[Iff(x, y) for x, y in zip(ca.bits, cb.bits)])
             if hasattr(ca, 'cell_eq'):
                 return ca.cell_eq(self, cb)
+            if isinstance(ca, PObj):
+                fr_ = Frame(getattr(self, 'cur_mod', None), None, '<eq>')
+                found = self.find_method(ca.cls, '__eq__', fr_, soft=True) if fr_.mod is not None else None
+                if found is not None:
+                    fn, mod, cls = found
+                    return self.truth_expr(self.call_funcdef(fn, mod, cls, a, [b], {}, None, '%s.__eq__' % cls))
             if isinstance(ca, PObj) and isinstance(cb, PObj):
-                return False      # plain objects compare by identity (no __eq__ in the modelled classes), and the addresses differ
+                return False      # plain objects without __eq__ compare by identity, and the addresses differ
             raise Undecided('== on containers %r %r' % (ca, cb))
         if isinstance(a, Ref) or isinstance(b, Ref):
             r, o = (a, b) if isinstance(a, Ref) else (b, a)
@@ -1547,11 +1553,23 @@ class Interp(object):
         mods += [source.load(r) for r in self.hooks.get('modules', [])]
         for mod in mods:
             ci = mod.classes.get(clsname)
-            if ci is None or name not in ci.methods:
-                continue
-            fn = ci.methods[name]
-            if any(isinstance(d, ast.Name) and d.id == 'property' for d in fn.decorator_list):
-                return fn, mod, ci.name
+            seen = 0
+            while ci is not None and seen < 8:
+                seen += 1
+                if name in ci.methods:
+                    fn = ci.methods[name]
+                    if any(isinstance(d, ast.Name) and d.id == 'property' for d in fn.decorator_list):
+                        return fn, ci.module, ci.name
+                    return None
+                nxt = None
+                for b in ci.bases:
+                    for m2 in mods:
+                        if b in m2.classes:
+                            nxt = m2.classes[b]
+                            break
+                    if nxt:
+                        break
+                ci = nxt
         return None
 
     def find_method(self, clsname, name, fr, soft=False):
